@@ -18,4 +18,37 @@ PROPS = {
     },
 }
 
+GEN = "seeded generator over scheme configurations (max/supported degree, enforced bound lists, hiding support, num_vars), polynomial shapes (full, random, zero, constant, low-order zeros, top monomial, sparse / mixed monomials), in-domain (degree bound, hiding bound) pairs, hostile query sets (several polynomials per point label, labels sharing a point value, one polynomial at many points, label orders differing from insertion order) and list permutations; 11 schemes (Marlin, Sonic, IPA, PST13, Hyrax, univariate/multilinear Ligero, Brakedown through the trait; KZG10, multilinear PST, streaming KZG directly; thorough adds BLS12-377 instances). "
+DIST = " Distinct = distinct SHA-256 hashes of (scheme, class, full case descriptor); a case is non-trivial when its oracle preconditions held (skipped cases are reported separately and never counted)."
+
+PROPS.update({
+    "C01": {
+        "title": "Completeness",
+        "rule": GEN + "Oracle: every call of the honest pipeline (setup, trim, commit, batch_open, open) succeeds and batch_check / check (two verifier seeds) accept the true values; prover and verifier start from clones of one pre-seeded recording sponge." + DIST,
+        "required_classes": ["batch-accept", "single-accept"],
+        "technique": "runtime monitoring: generated hostile honest workloads, outcome oracle at the API boundary",
+        "level_text": "Exploration of the honest configuration space with an accept-oracle at the client boundary; library panics are contained per call and classified. Thousands of transcripts per scheme in the thorough tier, covering every (bound, hiding, shape, query-shape, permutation) feature counted in evidence.observed_counters.",
+        "design_ref": "5 (C01)",
+        "assumptions": TRUST,
+    },
+    "C02": {
+        "title": "Evaluation binding (honest proof, false claim)",
+        "rule": GEN + "For each accepting transcript: value+delta (delta in {+1,-1,-value,random}) at several positions, the point of one label replaced, one commitment replaced by an honest commitment to another polynomial; in batch_check and single check (and KZG10::check/batch_check, MultilinearPC::check, streaming verify/verify_multi_points). Oracle: outcome is reject, Err or panic; precondition: the perturbed claim is false as recomputed from the polynomials (else skipped)." + DIST,
+        "required_classes": ["value-perturbed", "point-replaced", "commitment-replaced"],
+        "technique": "runtime monitoring: single-fault statement perturbation of accepting transcripts, reject-oracle",
+        "level_text": "Fault enumeration over statement components of generated accepting transcripts (about 10 perturbations per transcript) with a truth-recomputing precondition so that correct acceptances are never flagged.",
+        "design_ref": "5 (C02)",
+        "assumptions": TRUST,
+    },
+    "C05": {
+        "title": "Batch verification equals conjunction of single verifications",
+        "rule": GEN + "Query sets with >=2 point labels and >=2 polynomials. Per transcript: all-true batch under 4 verifier seeds; random subsets of falsified claims; plain cancelling error pairs (delta,-delta) within one point and across points; proof list truncated / emptied / extended / permuted. Oracles: batch decision == AND of per-point `check` decisions run in group order on a clone of the same sponge (streaming: == AND of single-point verifications with honest single proofs); decision independent of verifier seed; false and cancelling claims and missing/surplus proofs not accepted." + DIST,
+        "required_classes": ["all-true-accepted", "batch-vs-single-mismatch", "false-claim-accepted", "cancelling-errors-accepted", "proof-list-truncated", "proof-list-extended", "verifier-seed-invariance"],
+        "technique": "runtime monitoring: differential oracle batch_check vs sequential check on one transcript + reject-oracle on cancelling/shape faults",
+        "level_text": "Differential monitoring of two library decision procedures on identical claims, plus reject-oracles for challenge-oblivious cancelling errors and proof-list shape faults; challenge-aware compensating errors are excluded because correct code accepts them (values are not absorbed into the transcript).",
+        "design_ref": "5 (C05)",
+        "assumptions": TRUST,
+    },
+})
+
 ALL_IDS = ["C%02d" % i for i in range(1, 20)]
